@@ -161,6 +161,18 @@ def r14_3(run):
     for s in stores:
         ns = cfg.node_for(s)
         g = s.value.id if isinstance(s.value, ast.Name) else None
+        acc_cast = False
+        if g is None and isinstance(s, ast.Assign):
+            # X._grad = (X._grad + g).astype(X.dtype ...)   -- accumulation spelled out, with the dtype cast
+            v = s.value
+            if isinstance(v, ast.Call) and isinstance(v.func, ast.Attribute) and v.func.attr == "astype" and v.args \
+                    and norm(v.args[0]) == f"{var}.dtype" and isinstance(v.func.value, ast.BinOp) and isinstance(v.func.value.op, ast.Add):
+                parts = [v.func.value.left, v.func.value.right]
+                if any(norm(x) == f"{var}._grad" for x in parts):
+                    other = [x for x in parts if norm(x) != f"{var}._grad"]
+                    if len(other) == 1 and isinstance(other[0], ast.Name):
+                        g = other[0].id
+                        acc_cast = True
         if g is None:
             run.ob("R14.3", loc(fi, s), fi.short, f"store {norm(s)[:50]}", False, "stored value is not a tracked local")
             continue
@@ -171,7 +183,9 @@ def r14_3(run):
         run.ob("R14.3", loc(fi, s), fi.short, f"shape of `{norm(s)[:40]}`", ok,
                f"dominated by `assert {g}.shape == {var}.shape` with no shape-changing redefinition in between" if ok else
                "a gradient whose shape differs from the tensor's can be stored")
-        if isinstance(s, ast.Assign):
+        if acc_cast:
+            run.ob("R14.3", loc(fi, s), fi.short, f"dtype of `{norm(s)[:40]}`", True, f"explicit .astype({var}.dtype) on the accumulated sum")
+        elif isinstance(s, ast.Assign):
             tests = [n for n, st in cfg.stmt.items() if cfg.label[n] == "If" and isinstance(st, ast.Compare)
                      and isinstance(st.ops[0], ast.NotEq) and {norm(st.left), norm(st.comparators[0])} == {f"{g}.dtype", f"{var}.dtype"}]
             casts = [n for n, st in cfg.stmt.items() if isinstance(st, ast.Assign) and assigned_name(st) == g
